@@ -9,7 +9,8 @@ if [ -n "$(git status --porcelain)" ]; then echo "ERROR: /repo not clean"; exit 
 git apply "$P" || { echo "ERROR: patch does not apply"; exit 2; }
 trap 'git -C /repo checkout -- . ; git -C /repo clean -fdq' EXIT
 cd /verif
-out=$(bin/check -q ALL quick 2>&1)
+# SEED_BIN=<frozen goskvet binary> measures what an earlier state of the rules reports ("first sight")
+if [ -n "${SEED_BIN:-}" ]; then out=$("$SEED_BIN" -repo /repo -verif /verif -q ALL quick 2>&1); else out=$(bin/check -q ALL quick 2>&1); fi
 echo "$out" | grep -E '^  violation:' | cut -c1-420 | sort -u | head -12
 hits=$(echo "$out" | grep -E '^VIOLATION' | sed 's/.*property=\([A-Z0-9]*\).*/\1/' | sort -u | tr '\n' ' ')
 echo "DETECTED_BY: ${hits:-none}"
